@@ -21,4 +21,9 @@ CHECKS["C07"] = {
     "text": "Theorems opt_accept_iff / arg_accept_iff (construction succeeds iff no documented contradiction, names well-formed with or without dash prefix, default fits the value mode), opt_normal_form / arg_normal_form (exactly one type, one name preference, value-less => no value and no default, multi-valued => requires a value and list default, normalisation only adds bits among 0,1,2,3,7), opt_rejects_with_value_error, conv_typed, conv_int_roundtrip (every integer), conv_bool_roundtrip - all for every integer flag word. The tie is exhaustive over all 2^13 option and 2^11 argument flag words x short name x default kind, all names of length <= 4 over an 8-character alphabet as long/short/alias/argument names, and ~230 boundary + seeded random conversion inputs for 4 types x nullable.",
     "note": COMMON + "Float values and the float text round trip are CPython's (floats are text in the model, compared by value in the harness); int()/float() grammars are modelled for ASCII digits (non-ASCII decimal digits are outside the claimed domain); conversion inputs are None/bool/int/str.",
 }
+CHECKS["C08"] = {
+    "technique": "Coq proofs by induction over the fuelled scanner (termination/totality for all strings, whitespace split, quoting round trip for all expressible token lists, styles and separators) + exhaustive differential run over short strings and random token lists",
+    "text": "Theorems tokenize_total (for every string the fuel length+2 suffices and a token list is returned), unquoted_split, roundtrip (every list of expressible tokens, every per-token quote style, every whitespace run before each token and trailing whitespace tokenises back to that list), option_tokens_before_ddash / without_ddash. Tie: all strings up to length 6/7 over {a, space, tab, ', \", backslash, -}, 20k/200k random token lists (all 29 whitespace code points, non-ASCII) in an expressible and an inexpressible stream, argv lists with '--' at every position, the str.isspace() table over the code-point range, and StringArgs vs ArgvArgs through the real parser.",
+    "note": COMMON + "The indistinguishability of StringArgs and ArgvArgs for parser and resolver is checked by running both forms through DefaultArgsParser (testing); the theorem part is that both forms share tokens/option_tokens. expressible (Model/Tokenizer.v) is compared with the generator's own predicate on all strings up to length 5 over {a, backslash, ', \"}.",
+}
 NOT_APPLICABLE = {}
